@@ -116,6 +116,7 @@ fn native_for<G: ark_ec::AffineRepr + 'static>(kind: &str, rp: &serde_json::Valu
             let case: scen_c05::C05Case = serde_json::from_value(rp["case"].clone()).unwrap();
             scen_c05::c05_native::<G>(&case, seed, m, torsion)
         }
+        "c02wide" => scen_r1cs::c02_native_companion::<G>(seed),
         "c04torsion" => match &torsion {
             Some(t) => scen_c04::c04_torsion_native::<G>(seed, t),
             None => vec![],
@@ -226,6 +227,25 @@ fn tasks_for(prop: &str, tier: &str, seed: u64) -> Vec<Task> {
                         }),
                     });
                 }
+            }
+            for c in ["secq256k1", "zorro", "curve25519"] {
+                if !thorough && c != ["secq256k1", "zorro", "curve25519"][(seed as usize + 1) % 3] {
+                    continue;
+                }
+                let c = c.to_string();
+                let replay = serde_json::json!({"kind": "c02wide", "curve": c, "seed": seed});
+                out.push(Task {
+                    name: format!("C02:native_wide_and_batched:{}", c),
+                    replay: replay.clone(),
+                    run: Box::new(move || {
+                        let checks = match c.as_str() {
+                            "secq256k1" => scen_r1cs::c02_native_companion::<Secq>(seed),
+                            "zorro" => scen_r1cs::c02_native_companion::<Zorro>(seed),
+                            _ => scen_r1cs::c02_native_companion::<Ed>(seed),
+                        };
+                        native_job("C02", "native_wide_and_batched", &c, seed, checks, replay)
+                    }),
+                });
             }
             for (k, (shape, err)) in shapes::c02_cases(thorough, seed).into_iter().enumerate() {
                 let cs: Vec<&str> = if thorough { curves.clone() } else { vec![["secq256k1", "zorro", "curve25519"][k % 3]] };
@@ -869,7 +889,7 @@ fn main() {
                     println!("REPLAY {}", if any_wrong { "REPRODUCED" } else { "NOT-REPRODUCED" });
                     std::process::exit(if any_wrong { 1 } else { 0 });
                 }
-                Some(kind @ ("c10" | "c13" | "c15" | "c07" | "c07torsion" | "c04torsion" | "c06" | "c09" | "c05" | "c04" | "c03" | "c18" | "c17" | "c16" | "c08" | "c11" | "c12" | "c04bits")) => {
+                Some(kind @ ("c10" | "c13" | "c15" | "c07" | "c07torsion" | "c04torsion" | "c02wide" | "c06" | "c09" | "c05" | "c04" | "c03" | "c18" | "c17" | "c16" | "c08" | "c11" | "c12" | "c04bits")) => {
                     let seed = rp["seed"].as_u64().unwrap_or(0);
                     let curve = v["curve"].as_str().or(rp["curve"].as_str()).unwrap_or("secq256k1").to_string();
                     let mut any_wrong = false;
